@@ -20,6 +20,13 @@ Reading conventions of the translator that these statements rest on (its header,
   structure keys). The model's `relSet` is a duplicate-free list built in another order
   (`dedup` keeps last occurrences, the map keeps first insertions), so `buildRels` and `relSet`
   are equal as SETS: same members, both duplicate-free, hence permutations of each other.
+* `for _, rel := range typ.Rels { … rel.FromOne = one … }` (the repaired `buildRels`): the range
+  value variable is a copy of the element and the store changes that copy only. The translator
+  (wp_s.go, "range copy") reads the loop as `var rel Rel; for _, rel' := range … { rel = rel'; … }`,
+  so the translated loop carries the pair `(rel_, rels_)`; `GenC15b.foldl_snd` drops the first
+  component, which every step sets anew. `found, one := false, true` is the two declarations in
+  sequence; the inner loop is `GenC15b.foldl_found_one`: `found` = some relationship of the target
+  type points back, `one` = all that do are to-one - the model's `Schema.complete`.
 * `sort.Slice(rels, func(i, j) bool { return relLess(rels[i], rels[j]) })` is rendered as the
   model's `List.mergeSort` by `fun a b => !relLess b a`. This is exact because `relLess` is a
   strict total order on distinct relationships (`Gen_relLess_eq`, `Rel.le_antisymm'`, `le_total'`,
@@ -115,22 +122,59 @@ private theorem mapSet_unit {κ : Type} [DecidableEq κ] (m : List (κ × Unit))
     unfold Gen.mapSet GenC15b.setAdd
     rw [ih]
 
+/-- `buildRels` as one loop over the (type, relationship) pairs: each step adds the completed,
+normalised relationship. The translated body carries the range variable `rel` as a local copy
+(`foldl_snd`), its inner loop computes `found` / `one` (`foldl_found_one`), which are
+"some relationship of the target type points back" and "all that do are to-one": the model's
+`complete`. -/
 private theorem buildRels_fold (s : Schema) :
     Gen.Schema_buildRels s =
-      (s.types.flatMap (fun t => t.rels)).foldl (fun m e => GenC15b.setAdd m e.2.normalize) [] := by
+      (s.types.flatMap (fun t => t.rels.map (fun p => (t, p.2)))).foldl
+        (fun m e => GenC15b.setAdd m (s.complete e.1 e.2).normalize) [] := by
   unfold Gen.Schema_buildRels
   rw [List.foldl_flatMap]
-  simp only [mapSet_unit, Gen_Rel_Normalize_eq]
+  dsimp only
+  congr 1; funext m t
+  rw [List.foldl_map]
+  show (Prod.snd (List.foldl _ _ _) : List (Rel × Unit)) = _
+  refine GenC15b.foldl_snd _ _ ?_ _ _
+  intro a b e
+  dsimp only
+  generalize hfo : List.foldl _ (false, true) _ = fo
+  rw [GenC15b.foldl_found_one
+    (fun e2 : GoString × Rel => decide (e2.2.fromName = e.2.toName) && decide (e2.2.toName = e.2.fromName) && decide (e2.2.toType = t.name))
+    (fun e2 => e2.2.toOne) _ (by intro a b e2; dsimp only; first | done | rfl | (split <;> rfl))] at hfo
+  subst hfo
+  rw [mapSet_unit, Gen_Rel_Normalize_eq, Gen_Schema_GetType_eq]
+  have hc : (fun inv : Rel => decide (inv.fromName = e.2.toName ∧ inv.toName = e.2.fromName ∧ inv.toType = t.name)) ∘ (fun p : GoString × Rel => p.2)
+      = (fun e2 : GoString × Rel => decide (e2.2.fromName = e.2.toName) && decide (e2.2.toName = e.2.fromName) && decide (e2.2.toType = t.name)) := by
+    funext p; simp only [Function.comp, Bool.decide_and, Bool.and_assoc]
+  have hB : s.backRels t e.2 = ((s.getType e.2.toType).rels.filter (fun e2 : GoString × Rel => decide (e2.2.fromName = e.2.toName) && decide (e2.2.toName = e.2.fromName) && decide (e2.2.toType = t.name))).map (·.2) := by
+    unfold backRels GoMap.vals; rw [List.filter_map, hc]
+  have hA : (s.backRels t e.2).isEmpty = !((s.getType e.2.toType).rels.any (fun e2 : GoString × Rel => decide (e2.2.fromName = e.2.toName) && decide (e2.2.toName = e.2.fromName) && decide (e2.2.toType = t.name))) := by
+    rw [hB]; generalize (s.getType e.2.toType).rels = l
+    induction l with
+    | nil => rfl
+    | cons x l ih =>
+      rw [List.filter_cons, List.any_cons]; split
+      · rename_i h; rw [h]; rfl
+      · rename_i h; rw [Bool.not_eq_true] at h; rw [h, Bool.false_or]; exact ih
+  unfold complete
+  rw [hA, hB, List.all_map]
+  simp only [Function.comp_def]
+  generalize (s.getType e.2.toType).rels.any _ = A
+  generalize ((s.getType e.2.toType).rels.filter _).all _ = B
+  by_cases h1 : e.2.toName = [] <;> cases A <;> simp [h1]
 
 /-- The keys of the map `buildRels` returns are exactly the members of the model's `relSet`:
-the normalised relationships of the schema's types. -/
+the completed, normalised relationships of the schema's types. -/
 theorem Gen_Schema_buildRels_mem (s : Schema) (x : Rel) :
     x ∈ (Gen.Schema_buildRels s).map (·.1) ↔ x ∈ s.relSet := by
   rw [buildRels_fold, GenC15b.mem_foldl_setAdd, mem_relSet]
   simp only [List.map_nil, List.not_mem_nil, false_or, List.mem_flatMap, GoMap.vals, List.mem_map]
   constructor
-  · rintro ⟨e, ⟨t, ht, he⟩, h⟩; exact ⟨t, ht, e.2, ⟨e, he, rfl⟩, h⟩
-  · rintro ⟨t, ht, r, ⟨e, he, rfl⟩, h⟩; exact ⟨e, ⟨t, ht, he⟩, h⟩
+  · rintro ⟨e, ⟨t, ht, p, hp, rfl⟩, h⟩; exact ⟨t, ht, p.2, ⟨p, hp, rfl⟩, h⟩
+  · rintro ⟨t, ht, r, ⟨p, hp, rfl⟩, h⟩; exact ⟨(t, p.2), ⟨t, ht, p, hp, rfl⟩, h⟩
 
 /-- A Go map holds each key once. -/
 theorem Gen_Schema_buildRels_nodup (s : Schema) : ((Gen.Schema_buildRels s).map (·.1)).Nodup := by
